@@ -398,6 +398,17 @@ theorem q2d_and_der_azimuthal_correct (zf sf bf : ℝ → ℝ) (x z' s' b' : ℝ
     HasDerivAt (fun q => zf q * sf q + bf q) (q2dAndDer (sf x) (zf x) zr z' sr s' (bf x) br b' Rn).2.2 x :=
   q2d_and_der_t_correct zf sf bf x z' s' b' hz hs hb zr sr br Rn
 
+/-- **Zernike azimuthal derivative with the real `cos`, `sin`** -/
+theorem zernike_azimuthal_real (rad m t : ℝ) :
+    HasDerivAt (fun q => rad * cos (m * q)) (rad * (-m * sin (m * t))) t ∧
+    HasDerivAt (fun q => rad * sin (m * q)) (rad * (m * cos (m * t))) t := zernike_dt_real rad m t
+
+/-- **2D-Q azimuthal slope with the real `cos`, `sin`** (a non-degenerate instance of `q2d_azimuthal_slope`): every family,
+every coefficient lists, every `m`, every `(u, t)` -/
+theorem q2d_azimuthal_slope_real (G : Fam ℝ) (m : ℕ) (da db : List ℝ) (u t : ℝ) :
+    HasDerivAt (fun q => (q2dTermB G m (cos ((m : ℝ) * q)) (sin ((m : ℝ) * q)) da db u).1)
+      (q2dTermB G m (cos ((m : ℝ) * t)) (sin ((m : ℝ) * t)) da db u).2.2 t := q2dTermB_dt_real G m da db u t
+
 /-- the hypotheses are satisfiable: a concave conic well inside its domain -/
 example : 0 < phiRad (1 / 20 : ℝ) (-7 / 10) (2 * 2) ∧ 0 < psiRad (1 / 20 : ℝ) (-7 / 10) (2 * 2) := by
   simp only [phiRad, psiRad, C10L.ofInt_eq]; norm_num
